@@ -338,6 +338,9 @@ func (p *pdr) parseUEAddressIE(ueAddrIE *ie.IE, ippool *IPPool) error {
 	}
 
 	if needAllocIP(ueIPaddr) {
+		if ippool == nil {
+			return ErrOperationFailedWithReason("parse UE Address IE", "UE IP allocation is not enabled")
+		}
 		/* alloc IPV6 if CHV6 is enabled : TBD */
 		logger.PfcpLog.Infof("UPF should alloc UE IP for SEID %v. CHV4 flag set", p.fseID)
 
